@@ -436,7 +436,10 @@ impl CommandAnalyzer {
                 .strip_prefix("Vec<")
                 .and_then(|s| s.strip_suffix(">"))
             {
-                self.extract_type_names_recursive(inner, type_names);
+                // Vec<T, A>: the allocator is no part of the serialised shape
+                if let Some(element) = type_resolver::split_top_level_types(inner).first() {
+                    self.extract_type_names_recursive(element, type_names);
+                }
             }
             return;
         }
@@ -452,11 +455,12 @@ impl CommandAnalyzer {
                 .strip_prefix(prefix)
                 .and_then(|s| s.strip_suffix(">"))
             {
-                if let Some(comma_pos) = type_resolver::find_top_level_comma(inner) {
-                    let key_type = inner[..comma_pos].trim();
-                    let value_type = inner[comma_pos + 1..].trim();
-                    self.extract_type_names_recursive(key_type, type_names);
-                    self.extract_type_names_recursive(value_type, type_names);
+                // key and value; a hasher argument after them is no part of the shape
+                for argument in type_resolver::split_top_level_types(inner)
+                    .into_iter()
+                    .take(2)
+                {
+                    self.extract_type_names_recursive(argument, type_names);
                 }
             }
             return;
@@ -473,7 +477,9 @@ impl CommandAnalyzer {
                 .strip_prefix(prefix)
                 .and_then(|s| s.strip_suffix(">"))
             {
-                self.extract_type_names_recursive(inner, type_names);
+                if let Some(element) = type_resolver::split_top_level_types(inner).first() {
+                    self.extract_type_names_recursive(element, type_names);
+                }
             }
             return;
         }
